@@ -534,13 +534,20 @@ def avx_shell(R, P):
     if f is not None:
         dom = dominators(f)
         loops = Num(f, P, None).loops()
-        cps = [e for e in f.calls({"memcpy", "__builtin_memcpy", "__builtin___memcpy_chk"}) if "instride" in f.show(RU.arg(f, e.node, 0))]
-        clr = [e for e in f.calls({"memset", "__builtin_memset", "__builtin___memset_chk"}) if "instride" in f.show(RU.arg(f, e.node, 0))]
+        # the bounce buffer: the local vector a memcpy fills (by address) and that is then handed to the stride encoder
+        def vec_local(e_):
+            x_ = RU.strip_addr(f, RU.arg(f, e_.node, 0))
+            if x_ is not None and x_["k"] == "var" and x_.get("sc") == "local" and "m256" in (f.ty(x_).get("s") or f.ty(x_).get("c") or ""):
+                return x_["n"]
+            return None
+        enc_in = {n_ for e_ in f.calls("encode_stride") for n_ in [f.show(RU.uncast(f, RU.arg(f, e_.node, 0)))]}
+        cps = [e for e in f.calls({"memcpy", "__builtin_memcpy", "__builtin___memcpy_chk"}) if vec_local(e) in enc_in]
+        clr = [e for e in f.calls({"memset", "__builtin_memset", "__builtin___memset_chk"}) if vec_local(e) is not None]
         ok = bool(cps)
         for c in cps:
             body = [b for h, b in loops.items() if c.blk in b]
             inner = min(body, key=len) if body else set()
-            ok = ok and any(z.blk in inner and ev_dominates(f, z, c, dom) for z in clr)
+            ok = ok and any(z.blk in inner and ev_dominates(f, z, c, dom) and vec_local(z) == vec_local(c) and f.is_const(RU.arg(f, z.node, 1)) == 0 for z in clr)
         R.check(ok, "AVX-SHELL", "encode_sse41:bounce-buffer-cleared-per-iteration", where(f, cps[0]) if cps else f.name, "the partial copy into the bounce buffer follows a clear in the same loop iteration",
                 "the bounce buffer is partially overwritten without being cleared in that iteration: bytes of the previous stride leak into the encoding")
 
